@@ -291,3 +291,71 @@ Example ex_checked_system :
   ordinary_keys sy (init [((2, p), [5%Z])]) = true /\
   gpb (2 * Z.of_nat f + 2) p = true.
 Proof. vm_compute. repeat split. Qed.
+
+(** * Sentence 2 for rule systems WITH eternal variables that are leaves.
+
+    Hypothesis [Hleaf]: an eternal variable carries no formula, and if there is one at
+    least one spiral loop is allowed (so that a leaf, which has no frame of its variable
+    below it, is never cut).  Such a variable is never in progress with sub-computations;
+    its storage key is (v, eternity) whatever the requested period, it is never marked,
+    and the value it stores is the default, which a fresh simulation given nothing computes.
+    (Eternal variables WITH formulas are outside: see finding F33.)  [retained_values_justified]
+    is the special case without eternal variables. *)
+Theorem retained_values_justified_eternal_leaves : forall sy pp f s0 v p,
+  forall Hleaf : (forall w x, nth_error (vars sy) w = Some x -> unit_eqb (v_unit x) Eternity = true ->
+                    v_formulas x = [] /\ 1 <= max_loops sy),
+  stack s0 = [] -> invalid s0 = [] ->
+  let se := pop (fst (calc_body (calc f sy pp) sy pp (push (v, p) s0) v p)) in
+  forall Hpurge : (forall m k a, In m (invalid se) -> lookup k (cache se) = Some a ->
+                     fst m = fst k -> contains (snd m) (snd k) = true -> snd m = snd k),
+  let s1 := fst (calc (S f) sy pp s0 v p) in
+  forall k a, lookup k (cache s1) = Some a -> lookup k (cache s0) <> Some a ->
+  exists W : list (key * val),
+    (forall k' a', lookup k' W = Some a' -> k' <> k /\ lookup k' (cache s1) = Some a') /\
+    snd (calc (S f) sy pp {| cache := W; stack := []; invalid := [] |} (fst k) (snd k)) = Ok a.
+Proof. exact retained_justified_gen. Qed.
+Print Assumptions retained_values_justified_eternal_leaves.
+
+Theorem retained_values_justified_before_purge_eternal_leaves : forall sy pp f s0 v p,
+  forall Hleaf : (forall w x, nth_error (vars sy) w = Some x -> unit_eqb (v_unit x) Eternity = true ->
+                    v_formulas x = [] /\ 1 <= max_loops sy),
+  stack s0 = [] -> invalid s0 = [] ->
+  let se := pop (fst (calc_body (calc f sy pp) sy pp (push (v, p) s0) v p)) in
+  let s1 := fst (calc (S f) sy pp s0 v p) in
+  forall k a, lookup k (cache s1) = Some a -> lookup k (cache s0) <> Some a ->
+  exists W : list (key * val),
+    (forall k' a', lookup k' W = Some a' ->
+       k' <> k /\ lookup k' (cache se) = Some a' /\ ~ In k' (invalid se)) /\
+    snd (calc (S f) sy pp {| cache := W; stack := []; invalid := [] |} (fst k) (snd k)) = Ok a.
+Proof. exact retained_justified_pre_gen. Qed.
+Print Assumptions retained_values_justified_before_purge_eternal_leaves.
+
+(** Non-vacuity: the system of [ex_retained_justified] with D = V + E5 + E6, where E5 is an
+    eternal input (= 3) and E6 an eternal variable without input.  After the request for A:
+    D = 5, the input E5 and the default of E6 stay readable; a fresh simulation given
+    E5 and E6 computes D = 5, and one given nothing computes E6 = 0. *)
+Example ex_eternal_leaves :
+  let mv e := mk_var EPerson TInt Month None [((1, 1, 1)%Z, e)] 0%Z false false in
+  let ev := mk_var EPerson TInt Eternity None [] 0%Z false false in
+  let sy := {| vars := [ mv (EBin BAdd (EDep 1 PLastMonth OPlain) (EConst 1));
+                         mv (EBin BAdd (EDep 0 PSame OPlain) (EConst 1));
+                         mv (EBin BMul (EConst 10) (EDep 0 PSame OPlain));
+                         mv (EBin BAdd (EDep 1 PSame OPlain)
+                                       (EBin BAdd (EDep 5 PSame OPlain) (EDep 6 PSame OPlain)));
+                         mv (EBin BAdd (EDep 3 PSame OPlain) (EDep 2 PSame OPlain)); ev; ev ];
+               params := []; switches := []; max_loops := 1 |} in
+  let pp := {| grp := {| Group.g_entity := {| Group.e_key := EmptyString; Group.e_roles := []; Group.e_containing := [] |};
+                         Group.g_count := 1; Group.g_ids := [0]; Group.g_roles := [0] |} |} in
+  let p : period := (Month, (2018, 3, 1)%Z, 1%Z) in
+  let s0 := init [((5, eternity_period), [3%Z])] in
+  let f := (max_loops sy + 2) * List.length (vars sy) in
+  let se := pop (fst (calc_body (calc f sy pp) sy pp (push (4, p) s0) 4 p)) in
+  let s1 := fst (calc (S f) sy pp s0 4 p) in
+  forallb (fun x => negb (unit_eqb (v_unit x) Eternity)
+                    || match v_formulas x with [] => true | _ => false end) (vars sy) = true /\
+  marks_exact_b se = true /\
+  cache s1 = [((3, p), [5%Z]); ((6, eternity_period), [0%Z]); ((5, eternity_period), [3%Z])] /\
+  snd (calc (S f) sy pp {| cache := [((5, eternity_period), [3%Z]); ((6, eternity_period), [0%Z])];
+                           stack := []; invalid := [] |} 3 p) = Ok [5%Z] /\
+  snd (calc (S f) sy pp {| cache := []; stack := []; invalid := [] |} 6 eternity_period) = Ok [0%Z].
+Proof. vm_compute. repeat split. Qed.
